@@ -549,22 +549,14 @@ func c02ValidateJump(c *core.Ctx, a *c02Anchors, f *flow.Func, cons string, isSp
 	// loopsAround counts the loops enclosing a node along the chain of helpers up to f and returns
 	// the node (or call) in f standing for it
 	loopsAround := func(n ast.Node) (int, ast.Node) {
-		k := 0
-		for i := 0; i < 8 && n != nil; i++ {
-			g := d.owner(n)
-			if g == nil {
-				return -1, nil
-			}
-			if g == f {
-				return k + len(enclosingLoops(f.Body, n)), n
-			}
-			k += len(enclosingLoops(g.Body, n))
-			if d.site[g] == nil {
-				return -1, nil
-			}
-			n = d.site[g]
+		ls, _, ok := d.loopsOut(n)
+		if !ok {
+			return -1, nil
 		}
-		return -1, nil
+		if len(ls) == 0 {
+			return 0, n
+		}
+		return len(ls), ls[len(ls)-1] // the outermost loop stands for the node
 	}
 	fSpecFlow := c02FieldByYAML(c, c02pl, "Spec", "flow")
 	fResults := structField(c, c02fl, "Kind", "Results")
@@ -631,8 +623,7 @@ func c02ValidateJump(c *core.Ctx, a *c02Anchors, f *flow.Func, cons string, isSp
 			c.Undecide("R-C02-7", cons+"|targets counted from later nodes only", pos(c, incs[i]), "the target counter is updated in a helper with several call sites")
 			return
 		}
-		if d.norm(incIxs[i]) != d.norm(incIxs[0]) || ki != k0 ||
-			(len(enclosingLoops(f.Body, ui)) > 0 && enclosingLoops(f.Body, ui)[0] != enclosingLoops(f.Body, u0)[0]) {
+		if d.norm(incIxs[i]) != d.norm(incIxs[0]) || ki != k0 || (ki > 0 && ui != u0) {
 			c.Undecide("R-C02-7", cons+"|targets counted from later nodes only", pos(c, incs[i]), "several statements update the target counter with different keys or in different loops")
 			return
 		}
@@ -640,13 +631,31 @@ func c02ValidateJump(c *core.Ctx, a *c02Anchors, f *flow.Func, cons string, isSp
 	incIx = incIxs[0]
 	inc := incs[0]
 	vtObj := d.canon(incIx.X)
-	nloops, incUp := loopsAround(inc)
-	loops := enclosingLoops(f.Body, incUp)
-	if nloops != 1 || len(loops) != 1 {
-		c.Violate("R-C02-7", cons+"|targets counted from later nodes only", pos(c, inc), sprintf("the target counter is incremented inside %d loops (expected: once per node of the flow loop)", nloops))
+	outLoops, outFns, chainOK := d.loopsOut(inc)
+	if !chainOK {
+		c.Undecide("R-C02-7", cons+"|targets counted from later nodes only", pos(c, inc), "the target counter is updated in a helper or callback whose invocation cannot be followed")
 		return
 	}
-	outer := loops[0]
+	if len(outLoops) != 1 {
+		// a loop body behind a callback that is not understood: say so instead of guessing
+		if len(outLoops) == 0 {
+			inLit := false
+			ast.Inspect(f.Body, func(n ast.Node) bool {
+				if lit, ok := n.(*ast.FuncLit); ok && contains(lit, inc) {
+					inLit = true
+				}
+				return true
+			})
+			if inLit {
+				c.Undecide("R-C02-7", cons+"|targets counted from later nodes only", pos(c, inc), "the target counter is incremented inside a function literal whose caller (a callback iterator) cannot be followed")
+				return
+			}
+		}
+		c.Violate("R-C02-7", cons+"|targets counted from later nodes only", pos(c, inc), sprintf("the target counter is incremented inside %d loops (expected: once per node of the flow loop)", len(outLoops)))
+		return
+	}
+	outer := outLoops[0]
+	outerFn := outFns[0] // the function holding the node loop (the validator or a callback iterator it uses)
 	// node of the iteration and the naming method
 	var N string
 	aliasCall, _ := d.alias(incIx.Index).(*ast.CallExpr)
@@ -750,7 +759,7 @@ func c02ValidateJump(c *core.Ctx, a *c02Anchors, f *flow.Func, cons string, isSp
 		return
 	}
 	okExits := true
-	for _, x := range breaksOut(f, outer, labelOf(f.Body, outer)) {
+	for _, x := range breaksOut(outerFn, outer, labelOf(outerFn.Body, outer)) {
 		if es, ok := x.(*ast.ExprStmt); ok {
 			if call, ok := es.X.(*ast.CallExpr); ok {
 				if b, ok := f.Callee(call).(*types.Builtin); ok && b.Name() == "panic" {
@@ -815,7 +824,7 @@ func c02ValidateJump(c *core.Ctx, a *c02Anchors, f *flow.Func, cons string, isSp
 			incInInner = true
 		}
 	}
-	if innerLoops, innerUp := loopsAround(inner); innerUp == nil || !contains(outer, innerUp) || innerLoops != 2 || incInInner { // enclosingLoops counts the loop itself
+	if innerLoops, innerUp := loopsAround(inner); innerUp == nil || innerUp != ast.Node(outer) || innerLoops != 2 || incInInner { // enclosingLoops counts the loop itself
 		c.Violate("R-C02-7", cons+"|every jumpIf entry checked", pos(c, inner), "the loop over JumpIf is not inside the node loop / contains the counter increment")
 		return
 	}
@@ -945,8 +954,9 @@ func c02ValidateJump(c *core.Ctx, a *c02Anchors, f *flow.Func, cons string, isSp
 	countWhy := ""
 	innerIter, outerIter := 0, 0
 	res := analyze(c, f, flow.Config{
-		NoHavoc: true,
-		Inline:  inlineSamePkg(f),
+		NoHavoc:        true,
+		Inline:         inlineSamePkg(f),
+		InlineClosures: true, // the node loop's body may be a function literal handed to a callback iterator
 		OnBlock: func(st *flow.State, b *cfg.Block) {
 			switch {
 			case b.Stmt == outer && b.Kind == cfg.KindForBody:
